@@ -141,6 +141,11 @@ def run(ctx, rep):
                 a = str(sym(fn, t['args'][0]))
                 info['access'] = 'characters' if ('chars' in a or 'char_indices' in a) else 'bytes?'
         info['lookup'] = _lookup_mode(F, fn) if name.endswith('string') and info['shift'] is None else None
+        if info['bound'] is None and info['shift'] is not None and info['access'] == 'characters' and _nth_none_is_index_error(F, fn):
+            # the position is normalised as usual, and the lookup itself is the bound test: nth() finds no character exactly when the
+            # position is not below the number of characters, and that outcome is the index error
+            info['bound'] = 'characters'
+            info['implicit_bound'] = True
         if name.endswith('string'):
             BYTE_OPS = ('::as_bytes', 'str>::bytes', '::bytes', 'core::str::<impl str>::len', 'alloc::string::String::len', '::is_char_boundary',
                         '::split_at', '::get_unchecked', 'core::str::<impl str>::get', '::as_ptr', '::from_utf8')
@@ -169,6 +174,8 @@ def run(ctx, rep):
         acc_sites = [s_ for s_ in psc.census(ctx) if s_['fn'] == name and s_['kind'] == 'call' and
                      (psc.is_index_call(s_['what']) or (s_['what'].endswith('::unwrap') and 'nth' in str(sym(fn, s_['term']['args'][0]))))]
         okb = bool(acc_sites) and all(c05.verdict_for(ctx, s_)[0] for s_ in acc_sites)
+        if info.get('implicit_bound') and not acc_sites:
+            okb = True
         rep.ob(okb, 'R13.2', name, 'bound test', 'the element access is dominated by `index < count` (out of range is exactly index >= count): %s' % [c05.verdict_for(ctx, s_)[1][:60] for s_ in acc_sites], fn.loc())
     # a position that is still negative after the shift must be rejected: the index reaches the bound test either through the
     # wrapping conversion `as usize` (a negative number becomes huge) or after an explicit `< 0` rejection; any other way of
@@ -377,6 +384,22 @@ def _lookup_mode(F, fn):
     if not err_on_none:
         return False, 'no path turns `not found` into an IndexError'
     return True, 'front: nth(index) under index >= 0; back: rev().nth(|index| - 1) under index < 0; None -> IndexError'
+
+
+def _nth_none_is_index_error(F, fn):
+    """the routine looks a character up with nth() (no unwrap) and a path on which nothing was found returns an IndexError"""
+    nths = [(b, t) for b, t in fn.calls() if callee_name(t).endswith(('Iterator::nth', 'Iterator>::nth'))]
+    if not nths:
+        return False
+    if any(callee_name(t).endswith(('::unwrap', '::expect')) and 'nth' in str(sym(fn, t['args'][0])) for b, t in fn.calls()):
+        return False
+    for p in AbsInt(F, fn, max_paths=5000).run():
+        r = simp(p.env.get('_0'))
+        if p.exit == 'return' and r and r[0] == 'agg' and r[2] == 'Err' and 'IndexError' in str(r):
+            for c in p.constraints:
+                if c[0][0] == 'variant' and 'Option' in str(c[0][2]) and c[1] == 'None' and len(c[0]) > 3 and 'nth' in str(c[0][3]):
+                    return True
+    return False
 
 
 def show_s(v):
